@@ -133,7 +133,8 @@ Step ==
             /\ UNCHANGED <<cfg, rep, exp, expState, closed, dirsSeen, hist>>
        [] e.ev = "Pub" ->
             /\ exp' = [exp EXCEPT ![e.c] = [t \in Types |->
-                          IF Reported(e.c, t) THEN Append(exp[e.c][t], <<e.f, X(e, t)>>) ELSE exp[e.c][t]]]
+                          \* LJH 2.2 (and OFF) hold fixed-length records only: a shorter record is not accepted by that writer
+                          IF Reported(e.c, t) /\ (t = "L3" \/ e.n = cfg.nsamp) THEN Append(exp[e.c][t], <<e.f, X(e, t)>>) ELSE exp[e.c][t]]]
             /\ UNCHANGED <<cfg, rep, expState, expExt, expDrop, closed, dirsSeen, hist>>
        [] e.ev = "File" -> FileStep(e)
        [] e.ev = "Side" -> SideStep(e)
